@@ -66,6 +66,29 @@ def gen_doc(rng, tag, ctx):
             'nlang': len(d['expected'])}
 
 
+def variant_doc(rng, d):
+    import re
+    doc = d['doc']
+    if d['format'] == 'webvtt':
+        def rev(m):
+            toks = m.group(2).split()
+            return m.group(1) + ' ' + ' '.join(reversed(toks)) if len(toks) > 1 else m.group(0)
+        out = re.sub(r'(?m)^(.*-->[ \t]+\S+)[ \t]+(\S.*)$', rev, doc)
+        if out != doc:
+            return dict(d, doc=out, variant=True)
+    if d['format'] == 'sami':
+        m = list(re.finditer(r'(?i)<sync start="?(\d+)"?>', doc))
+        k = doc.lower().rfind('</body>')
+        if m and k > 0:
+            last = int(m[-1].group(1))
+            cls = re.search(r'(?i)<p class="?([A-Za-z0-9]+)', doc)
+            if cls:
+                extra = '<SYNC Start=%d><P Class=%s Style="text-align:%s;">&nbsp;</P></SYNC>\n' % (
+                    last + 2000, cls.group(1), rng.choice(['right', 'left', 'center']))
+                return dict(d, doc=doc[:k] + extra + doc[k:], variant=True)
+    return None
+
+
 def break_doc(rng, d):
     """An ill-formed variant of a generated document: the reader must raise - and a later read on the same
     reader object must not be affected by the half-finished one."""
@@ -149,6 +172,12 @@ def cases(ctx):
             if extra['format'] == f0 and extra['reader_kwargs'] == ds[0]['reader_kwargs']:
                 ds.append(extra)
                 break
+        if rng.random() < 0.5:
+            # a variant of one of the documents that says the same in another order joins the history: WebVTT cue
+            # settings reversed; a SAMI document that ends with a clearing paragraph carrying an inline alignment
+            v = variant_doc(rng, rng.choice(ds))
+            if v is not None:
+                ds.append(v)
         if rng.random() < 0.35:
             # an ill-formed variant of one of the documents joins the history
             b = break_doc(rng, rng.choice(ds))
